@@ -47,9 +47,10 @@ Start(m) == /\ node = "building" /\ AllCreated /\ Rejected = {} /\ m \notin star
             /\ node' = IF started' = Mods THEN "running" ELSE node
             /\ UNCHANGED <<cfgof, kindof, ready, created, registered, reported, pending, polled>>
 
-(* the poll thread of m hands a configured value to write_<p> *)
+(* the poll thread of m hands a configured value to write_<p>; the hardware call may take the configured *)
+(* values of other parameters along (common write function): they are written by this call, not again    *)
 Write(m, p) == /\ m \in started /\ p \in pending[m] /\ m \notin polled /\ ~ready
-               /\ pending' = [pending EXCEPT ![m] = @ \ {p}]
+               /\ pending' = [pending EXCEPT ![m] = @ \ Consumes(p)]
                /\ UNCHANGED <<cfgof, kindof, ready, created, registered, node, reported, started, polled>>
 (* ... a configured value outside the limits may fail the range check instead (loose clause) *)
 WriteRefused(m, p) ==
